@@ -3,6 +3,7 @@
 -/
 import Hpfeeds.Lemmas.AioClient
 import Hpfeeds.Lemmas.BlkSession
+import Hpfeeds.Lemmas.BlkClient
 namespace Hpfeeds.C12
 open Hpfeeds Extracted
 
@@ -61,4 +62,47 @@ example : (run exCfg [.connect, .inb (exInfo ++ (exPub 1).take 3), .sel .again, 
     .read, .sel .again, .read, .read]).1.handed = [([97],[99],[1]), ([97],[99],[2])] := by decide +kernel
 
 end Blk
+/-! ## blocking Client.run: message_callback / error_callback -/
+namespace Client
+open Hpfeeds.BlkClient
+
+/-- After ANY event sequence, whatever the callbacks do (stop, subscribe, publish — with reconnections
+    inside them): the callbacks made so far are exactly, in order and once each, the ones owed for the
+    frames run() has taken from the unpacker: message_callback(ident, channel, payload) for every
+    OP_PUBLISH, error_callback(text) for every OP_ERROR, nothing for anything else. -/
+theorem callbacks_in_order (cfg : Cfg) (es : List Ev) :
+    (run cfg es).1.delivered = (run cfg es).1.runFrames.filterMap cbOf :=
+  (dinv_run cfg es).cbs
+
+/-- … and the frames taken from the unpacker since its last reset (= since the current connection was
+    made) are exactly the frames contained in the bytes fed to it, however they were split across recv()
+    calls: re-encoded and followed by the buffered rest they ARE those bytes.  (The first of them is the
+    OP_INFO that do_auth took; frames that arrived in the same recv() are dispatched by run().) -/
+theorem frames_are_the_bytes (cfg : Cfg) (es : List Ev) :
+    (run cfg es).1.fed = (run cfg es).1.popped.flatMap enc ++ (run cfg es).1.ubuf :=
+  (dinv_run cfg es).bytes
+
+/-- what a callback is owed for: the fields are the ones the frame carries -/
+theorem callback_carries (f : Frame) (i c p : Bytes) (h : cbOf f = some (.msg (i, c, p))) :
+    read f = some (.ok (.publish i c p)) := by
+  unfold cbOf at h
+  split at h
+  · split at h
+    · rename_i i' c' p' hr; cases h; exact hr
+    · cases h
+  · split at h
+    · split at h <;> cases h
+    · cases h
+
+/-! non-vacuity (kernel-evaluated): a PUBLISH parked behind OP_INFO in the first recv(), one split over two
+    reads, an OP_ERROR: three callbacks, in order -/
+def exCfg : Cfg := { ident := [109], secret := [115], H := id }
+def exInfo : Bytes := [0,0,0,12,1,2,104,112,9,8,7,6]
+def exPub (x : UInt8) : Bytes := [0,0,0,10,3,1,97,1,99,x]
+def exErr : Bytes := [0,0,0,7,0,110,111]
+example : (run exCfg [.new, .connOk, .data (exInfo ++ exPub 1), .sendOk, .run, .data ((exPub 2).take 4),
+    .data ((exPub 2).drop 4 ++ exErr)]).1.delivered =
+    [.msg ([97],[99],[1]), .msg ([97],[99],[2]), .err [110,111]] := by decide +kernel
+
+end Client
 end Hpfeeds.C12
